@@ -26,7 +26,8 @@ var errFault = errors.New("injected I/O fault")
 // accept nothing.  style "short": the call whose byte range contains offset k
 // returns the bytes before k with io.ErrShortWrite; every other call is
 // accepted in full (so that a caller ignoring the error is noticed).
-// style "none": accepts everything (recording run).
+// style "eager": the call that stores the k-th byte (k >= 1) is accepted in
+// full and returns (len(p), error).  style "none": accepts everything (recording run).
 type faultWriter struct {
 	style    string
 	k        int
@@ -59,6 +60,14 @@ func (w *faultWriter) Write(p []byte) (int, error) {
 		w.held = append(w.held, p[:left]...)
 		w.failed = true
 		return left, errFault
+	case "eager":
+		// the call that stores the k-th byte is accepted in full and reports
+		// the failure together with the complete count (allowed for an io.Writer)
+		if off < w.k && w.k <= off+len(p) {
+			w.held = append(w.held, p...)
+			w.failed = true
+			return len(p), errFault
+		}
 	case "short":
 		if off <= w.k && w.k < off+len(p) {
 			n := w.k - off
@@ -129,8 +138,13 @@ func writeOracle(o wobs, file []byte, k int) (string, string) {
 	if !o.w.failed && o.err != nil {
 		return fmt.Sprintf("k=%d: error returned although the destination never failed: %v", k, o.err), sigSpurious
 	}
-	if k < len(file) && o.err == nil {
-		return fmt.Sprintf("k=%d < file length %d but the write succeeded", k, len(file)), sigNoErr
+	must := k < len(file)
+	if o.w.style == "eager" {
+		// the eager destination fails on the call that stores byte number k (k >= 1)
+		must = k >= 1 && k <= len(file)
+	}
+	if must && o.err == nil {
+		return fmt.Sprintf("k=%d within file length %d but the write succeeded", k, len(file)), sigNoErr
 	}
 	if o.err == nil && (len(held) != len(file) || (o.hasN && o.n != int64(len(file)))) {
 		return fmt.Sprintf("k=%d: success with %d of %d bytes", k, len(held), len(file)), sigCount
